@@ -503,6 +503,75 @@ def _owner(ctx, server, put, remove, detached_exception=True):
                 sites, rule='C01.3')
 
 
+def _fresh_vectors(ctx, server):
+    """C01.3: the free-capacity vector of a server belongs to the server.
+    The aggregates above it are computed *from* it and stored as values of
+    their own: a bucket's free capacity is assigned the result of a vector
+    operation that builds a new array (maximum / minimum / copy / zero), and
+    no capacity vector is updated in place through ``out=``.  A bucket that
+    ends up holding the very array of its only child (a fold that returns
+    its single element) and is then raised in place hands that child free
+    capacity it does not have - an oversubscription with the declared
+    capacity untouched."""
+    index = ctx.index
+    mod = index.module(K.SCHED)
+    fresh_calls = ('maximum', 'minimum', 'fmax', 'fmin', 'copy',
+                   'zero_capacity', 'eps_capacity', 'array', 'zeros',
+                   'full', 'asarray')
+    judged = 0
+    for cls in mod.classes.values():
+        if cls is server or server in index.mro(cls):
+            continue
+        if not any(c.name == 'Node' for c in index.mro(cls)):
+            continue
+        for func in cls.live_methods():
+            defs = {}
+            for sub in K.walk_no_nested(func.raw):
+                if isinstance(sub, ast.Assign) and len(sub.targets) == 1 \
+                        and isinstance(sub.targets[0], ast.Name):
+                    defs.setdefault(sub.targets[0].id, []).append(sub.value)
+
+            def fresh(expr, depth=0):
+                if isinstance(expr, ast.Call):
+                    name = (dotted_text(expr.func) or '').split('.')[-1]
+                    if isinstance(expr.func, ast.Attribute) and \
+                            expr.func.attr == 'copy':
+                        return True
+                    return name in fresh_calls
+                if isinstance(expr, ast.BinOp):
+                    return True         # arithmetic builds a new array
+                if isinstance(expr, ast.Name) and depth < 3 and \
+                        expr.id in defs:
+                    return all(fresh(v, depth + 1) for v in defs[expr.id])
+                return False
+            for sub in K.walk_no_nested(func.raw):
+                if isinstance(sub, ast.Assign) and any(
+                        N.txt(t) == 'self.free_capacity'
+                        for t in sub.targets):
+                    judged += 1
+                    ctx.ob('C01.3', func, sub, fresh(sub.value),
+                           'the aggregate is assigned a vector of its own '
+                           '(result of maximum / copy / zero ...), never one '
+                           "that may be a child's array (%s)" %
+                           N.txt(sub.value)[:50],
+                           construct='aggregate vector is fresh: %s' %
+                           N.txt(sub.value)[:40])
+    for func in mod.live_functions():
+        for call in K.calls(func.raw):
+            for kw in call.keywords:
+                if kw.arg == 'out' and isinstance(kw.value, ast.Attribute) \
+                        and kw.value.attr in ('free_capacity',
+                                              'init_capacity'):
+                    ctx.fail('C01.3', func, call,
+                             'a capacity vector is updated in place through '
+                             "out=%s: whoever shares the array (a bucket "
+                             'holding the vector of its only child) is '
+                             'changed with it' % N.txt(kw.value),
+                             construct='capacity vector written in place')
+    ctx.require(judged >= 2, 'assignments of a bucket aggregate (found %d)'
+                % judged, rule='C01.3')
+
+
 def _single_placement(ctx):
     loop = PlacementLoop(ctx)
     count = 0
@@ -695,11 +764,29 @@ def _restore(ctx, server, put, rule='C01.6'):
                 isinstance(sub.targets[0], ast.Name) and \
                 N.txt(sub.value) == '%s.lease' % appvar:
             saved = sub.targets[0].id
+    other_stores = [n for n in graph.nodes if n not in zero and any(
+        N.txt(t) == '%s.lease' % appvar for t, _v, _k in K.assigns_attr(n))]
     for node, _call in puts:
         ok = bool(zero) and K.guarded_by(
             graph, node, lambda e: e.src in zero)
+        # ... and it is still zero when the placement runs: no path from
+        # the neutralising store to the placement passes another store of
+        # the lease (a "remaining lease" put back in makes the restore
+        # subject to the lifetime test again)
+        again = None
+        for z in zero:
+            again = again or K.find_path(
+                z, [node], cut_node=lambda n: False, follow_exc=False,
+                cut_edge=lambda e: e.src is not z and e.src not in
+                other_stores and False)
+            hit = [o for o in other_stores
+                   if K.find_path(z, [o], follow_exc=False) is not None and
+                   K.find_path(o, [node], follow_exc=False) is not None]
+            if hit:
+                ok = False
         ctx.ob(rule, func, node, ok,
-               'lease neutralised before the leaf placement')
+               'lease neutralised before the leaf placement (and not set '
+               'again before it)')
         reinst = [n for n in graph.nodes if any(
             N.txt(t) == '%s.lease' % appvar and saved and N.txt(v) == saved
             for t, v, _k in K.assigns_attr(n))]
@@ -972,6 +1059,7 @@ def check(ctx):
     _admission(ctx, nz, put, pred)
     _pair(ctx, put, remove)
     _owner(ctx, server, put, remove, detached_exception=False)
+    _fresh_vectors(ctx, server)
     _single_placement(ctx)
     _conversion(ctx)
     _restore(ctx, server, put)
